@@ -48,7 +48,7 @@ def plan(tier: str, seed: int) -> Plan:
             for s2 in rng.sample(spn, 3):
                 if s2 != s:
                     extra.append((q, s2, fam))
-        for q in cat.selector_queries(3, rng, 60, 30):
+        for q in cat.selector_queries(3, rng, 150, 80):
             extra.append((oracle.query_text(q), rng.choice(spn), "gen"))
         items += extra
     seen = set()
